@@ -4,6 +4,7 @@ SPEC = {
     "components": {"1": "outcome of the call (proceeds / rejected by a limit check / bad input)",
                    "2": "statements, arguments and transaction brackets received by the server",
                    "3": "set of batched callers that reached the batch function", "4": "generated case violates the well-formedness hypotheses of the theorems (harness defect)",
+                   "6": "method outside the model: an exported method of sqlgen.DB reaches a database/sql call without a case in Sql/Methods.v, or with another kind of access",
                    "5": "handle produced by a chain of WithShardLimit / WithDynamicLimit / WithPanicOnNoIndex calls (limits kept, calls refused)"},
     "corr_name": "Sql.Methods (run_call: every exported method of sqlgen.DB by name, derive: chains of With* calls) and Sql.Model (run, run_batched, run_batched_multi, run_seq) vs sqlgen.DB methods on a fake database/sql driver",
     "coq_modules": ["Sql.Model", "Sql.ModelExact", "Sql.Methods", "Sql.ModelCheck"],
@@ -12,7 +13,7 @@ SPEC = {
     "trusted_base": [
         "Coq 8.16.1 kernel and vm_compute (no native_compute); Print Assumptions: closed under the global context",
         "hand-written model coq/theories/Sql/Model.v, Methods.v of sqlgen/db.go, reflect.go, mysql.go, batch.go, tied to the code by the correspondence check and by the generated table of DB's exported methods",
-        "tools/gensqlmethods (go/ast extractor of the exported methods of sqlgen.DB and the kind of database/sql call each reaches, by name, into coq/theories/Gen/DbMethods.v; re-run on every check)",
+        "harness/pkg/sqlh/methods.go (go/ast extractor of the exported methods of sqlgen.DB and the kind of database/sql call each reaches, by name; run on the tree under test on every check, the table goes to the evaluator inside the run's own directory; tools/gensqlmethods writes the committed snapshot coq/theories/Gen/DbMethods.v)",
         "Go harness harness/cmd/c12, harness/pkg/sqlh, the fake MySQL server harness/pkg/fakesql (statement parser, three-valued WHERE evaluation), database/sql argument conversion",
         "columns without binary/string/json tags and values that do not implement driver.Valuer (C13 covers those); no time.Time values; floats are multiples of 1/4",
     ],
@@ -33,37 +34,25 @@ SPEC = {
 }
 
 
-def regen_tables():
-    """Re-extract the exported methods of sqlgen.DB of the tree under test into coq/theories/Gen/DbMethods.v
-    (written only when it changed; under the shared Coq lock).  A failure leaves a table the theorem
-    c12_every_exported_method_is_modelled cannot match: the check fails closed."""
-    import os
-    from vlib import common as C
-    tool = os.path.join(C.VERIF, "tools", "gensqlmethods")
-    out = os.path.join(C.COQ, "theories", "Gen", "DbMethods.v")
-    os.makedirs(os.path.join(C.BUILD, "bin"), exist_ok=True)
-    binp = os.path.join(C.BUILD, "bin", "gensqlmethods")
-    with C.Lock("go"):
-        rc, log = C.sh(["go", "build", "-o", binp, "."], cwd=tool, env=C.GOENV, timeout=600)
-    if rc != 0:
-        print("gensqlmethods does not build:\n" + log[-2000:])
-        return False
-    with C.Lock("coq", shared=True):
-        rc, log = C.sh([binp, "-repo", C.REPO, "-out", out], cwd=C.VERIF, timeout=120)
-    if rc != 0:
-        print("gensqlmethods failed:\n" + log[-2000:])
-    return rc == 0
-
-
 def outside_model():
-    """Names of exported methods of sqlgen.DB the model has no case for (or whose kind of database access
-    differs from the model's), for the message of a failed run."""
+    """Names of exported methods of sqlgen.DB the model does not cover (they reach the database without a case in
+    Sql/Methods.v, or with another kind of access), read from the run's own table (build dir), for the message
+    of a failed run."""
     import os, re
     from vlib import common as C
+    runv = os.path.join(C.BUILD, "C12", "run-quick", "cases_methods.v")
+    for d in ("run-thorough", "run-quick"):
+        p = os.path.join(C.BUILD, "C12", d, "cases_methods.v")
+        if os.path.exists(p) and (not os.path.exists(runv) or os.path.getmtime(p) >= os.path.getmtime(runv)):
+            runv = p
+    if not os.path.exists(runv):
+        return None
+    m = re.search(r"Definition cases[^\n]*:= \[(.*?)\n\]\.", open(runv).read(), flags=re.S)
+    if not m:
+        return None
     src = os.path.join(C.BUILD, "C12", "outside.v")
-    os.makedirs(os.path.dirname(src), exist_ok=True)
-    open(src, "w").write("From Coq Require Import List String.\nFrom Thunder Require Import Sql.Methods Gen.DbMethods.\nOpen Scope string_scope.\n"
-                         "Definition Outside := Eval vm_compute in (methods_outside db_methods, db_methods_problem).\nPrint Outside.\n")
+    open(src, "w").write("From Coq Require Import List String.\nFrom Thunder Require Import Sql.Methods.\nImport ListNotations.\nOpen Scope string_scope.\n"
+                         "Definition Outside := Eval vm_compute in (methods_outside [" + m.group(1) + "\n]).\nPrint Outside.\n")
     try:
         rc, out = C.sh(["coqc"] + C.COQ_FLAGS + ["-o", src + "o", src], timeout=300)
     except Exception:
@@ -76,11 +65,10 @@ def outside_model():
 
 def run(tier, seed, replay=None):
     from vlib import runner
-    regen_tables()
     rc = runner.run(SPEC, tier, seed, replay)
     if rc != 0:
         o = outside_model()
-        if o and not (o.startswith("([], false)") or o.startswith("(nil, false)")):
-            print("METHOD-OUTSIDE-MODEL: exported methods of sqlgen.DB without a case in Sql/Methods.v (or with another kind of "
-                  "database access than the model's), extraction problem flag: " + o)
+        if o and o not in ("[]", "nil"):
+            print("METHOD-OUTSIDE-MODEL: exported methods of sqlgen.DB that reach the database without a case in Sql/Methods.v "
+                  "(or with another kind of database access than the model's): " + o)
     return rc
